@@ -394,7 +394,7 @@ func checkBlob(t *testing.T, c BlobCase) (v harness.Verdict) {
 
 // Blob is the DigitallySigned level of C05.
 var Blob = harness.Define(harness.Opts{
-	Name: "blob",
-	Rule: "pool key (RSA 1024/2048/3072, P-224/256/384/521, DSA 1024/2048, Ed25519) x hash code x message x signature from stdlib signing or tls.CreateSignature x 0-2 mutations (bit flips of message / signature, key swap within and across types, nil / value-type key, either code over 0..255, appended bytes, truncation, negative / zero / non-minimal r or s, swapped r/s, elements added inside the SEQUENCE, non-minimal length, n-s, s+n); tls.VerifySignature must agree with the reference verifier. Non-trivial: at least one mutation or an algorithm pair other than SHA-256 with RSA/ECDSA",
+	Name:  "blob",
+	Rule:  "pool key (RSA 1024/2048/3072, P-224/256/384/521, DSA 1024/2048, Ed25519) x hash code x message x signature from stdlib signing or tls.CreateSignature x 0-2 mutations (bit flips of message / signature, key swap within and across types, nil / value-type key, either code over 0..255, appended bytes, truncation, negative / zero / non-minimal r or s, swapped r/s, elements added inside the SEQUENCE, non-minimal length, n-s, s+n); tls.VerifySignature must agree with the reference verifier. Non-trivial: at least one mutation or an algorithm pair other than SHA-256 with RSA/ECDSA",
 	Quick: 10000, Thorough: 40000,
 }, genBlob, checkBlob)
